@@ -816,6 +816,16 @@ class Dataset(AutoSerialize):
 
         # Compute which dimensions are kept
         kept_axes = [i for i, idx in enumerate(index) if not isinstance(idx, (int, np.integer))]
+        # NumPy treats integers as advanced indices too: when a list/array index is
+        # separated from an integer index by a slice, its axis comes first in the result
+        adv = [
+            i
+            for i, idx in enumerate(index)
+            if isinstance(idx, (int, np.integer, list, np.ndarray))
+        ]
+        arr_axes = [i for i in adv if not isinstance(index[i], (int, np.integer))]
+        if arr_axes and len(adv) > 1 and adv[-1] - adv[0] + 1 != len(adv):
+            kept_axes = arr_axes + [i for i in kept_axes if i not in arr_axes]
 
         # Slice/reduce metadata accordingly
         new_origin = (
